@@ -427,6 +427,19 @@ def statusThen (p : Pkg) (r : Res) : P Res :=
     | .ok => .ret r
     | _ => .ret .err
 
+/-- everything after the List of the package's revisions answered `listed` -/
+def afterList (unfixed : Bool) (env : Env) (p : Pkg) (listed : List Rev) : P Res :=
+  .call .listImageConfigs fun
+    | .ok =>
+      match revisionName env p with
+      | .error _ => statusThen p .err
+      | .ok cur =>
+        if cur = "" then statusThen p .requeue
+        else if unfixed then stage2With (gcVictimUnfixed p.spec.limit listed) p cur listed
+        else stage2 p cur listed
+    -- PullSecretFor failed: the status update's own error is ignored
+    | _ => .call (.statusPkg p.name p.status) fun _ => .ret .err
+
 def reconcileWith (unfixed : Bool) (env : Env) (pname : String) : P Res :=
   .call (.getPkg pname) fun
     | .pkg p =>
@@ -440,17 +453,10 @@ def reconcileWith (unfixed : Bool) (env : Env) (pname : String) : P Res :=
           | _ => .ret .err
       else
         .call (.listRevs pname) fun
-          | .revs listed =>
-            .call .listImageConfigs fun
-              | .ok =>
-                match revisionName env p with
-                | .error _ => statusThen p .err
-                | .ok cur =>
-                  if cur = "" then statusThen p .requeue
-                  else if unfixed then stage2With (gcVictimUnfixed p.spec.limit listed) p cur listed
-                  else stage2 p cur listed
-              -- PullSecretFor failed: the status update's own error is ignored
-              | _ => .call (.statusPkg p.name p.status) fun _ => .ret .err
+          | .revs listed => afterList unfixed env p listed
+          -- `resource.IgnoreNotFound(err) != nil`: a NotFound answer to the List is taken as "no
+          -- revisions" (an informer-backed client never answers a List that way; an injected one can)
+          | .err .notFound => afterList unfixed env p []
           | _ => .ret .err
     | .err .notFound => .ret .gone
     | _ => .ret .err
